@@ -75,6 +75,8 @@ func init() {
 			add(qast.TreeUnits("tree|full|1|df", len(treeSet("full0")), 1), 1)
 			add(qast.TreeUnits("tree|c11x|1|df", len(treeSet("c11x0")), 1), 1)
 			add([]string{"groups"}, 2)
+			// short sequences as comparison value, value group, range bound, operand (frames of C10)
+			us = append(us, frameUnits([]string{"bool", "unary"}, 4)...)
 			if tier == "thorough" {
 				add(qast.TreeUnits("tree|full|2|df", len(treeSet("full1")), 60), 4)
 			} else {
